@@ -223,9 +223,6 @@ func geomGraph(r *rand.Rand) (string, [][]string) {
 	case 4, 5:
 		g := gen.Slack(r)
 		return g.Family, gen.Names(g)
-	case 6:
-		g := gen.Hub(r)
-		return g.Family, gen.Names(g)
 	default:
 		return smallGraph(r)
 	}
@@ -245,6 +242,12 @@ func init() {
 			r := rng("C03", seed, tier, idx)
 			c := &core.Case{Prop: "C03", Tier: tier, Seed: seed, Index: idx}
 			c.Family, c.Edges = geomGraph(r)
+			hub := r.Intn(30) == 0
+			if hub {
+				// family F13 is aimed at the pivot rule of the network simplex layerer (dozens of candidate entering edges)
+				g := gen.Hub(r)
+				c.Family, c.Edges = g.Family, gen.Names(g)
+			}
 			if r.Intn(8) == 0 {
 				// node names are opaque; an eighth of the cases uses names whose concatenations collide
 				c.Edges = renameEdges(c.Edges, ambiguousNames(r, nodeIDs(c.Edges)))
@@ -253,6 +256,12 @@ func init() {
 			ids := nodeIDs(c.Edges)
 			o := fastCell(r, len(ids), false)
 			o.Router = []int{4, 1}[r.Intn(2)]
+			if hub {
+				o.Layerer, o.Router = 0, 4
+				if o.Positioner == 3 {
+					o.Positioner = 1
+				}
+			}
 			c.Regime = pickRegime(r)
 			if r.Intn(5) > 0 {
 				heteroSizes(r, &o, ids, c.Regime, 120, 0.1)
